@@ -138,6 +138,11 @@ func runC17(c *Ctx) {
 
 	rulePair(c)
 	ruleReset(c, guard)
+	// every authenticated TCP connection starts its tunnel (and only those): the authentication report is made on every
+	// path from the authentication-success edge, only there, at most once
+	if a := findTCP(c, "STARTCALL"); a != nil {
+		ruleOnce(c, a, "STARTCALL")
+	}
 }
 
 func fnByMethod(c *Ctx, pkg, recvT, name string) *ssa.Function {
